@@ -1577,7 +1577,13 @@ def parse_as_ast(
         # The caller keeps its AST: what is built from it (type following fills in default
         # arguments and applies call-site rewrites in place) works on a copy, so the same
         # lambda object can be given to several streams.
-        return copy.deepcopy(lambda_unwrap(ast_source))
+        src_ast = copy.deepcopy(lambda_unwrap(ast_source))
+        # A call node assembled by hand may lack the `keywords` field (python 3.12 leaves it
+        # absent): such a call has no keywords.
+        for n in ast.walk(src_ast):
+            if isinstance(n, ast.Call) and not hasattr(n, "keywords"):
+                n.keywords = []
+        return src_ast
 
 
 def scan_for_metadata(a: ast.AST, callback: Callable[[ast.arg], None]):
